@@ -20,8 +20,15 @@ structure DSt where
   items   : List (Nat × Item)
   consOut : Bool            -- a consumer goroutine is outstanding (model)
   started : Bool
+  others  : List (Nat × St × Mon) := []   -- further control buffers of the same process (b<k> ops)
 
 def dinit : DSt := { s := init 2, m := Mon.init 2, items := [], consOut := false, started := false }
+
+/-- buffer k ≥ 1 (created on first use with the primary's limit) -/
+def getOther (d : DSt) (k : Nat) : St × Mon := (d.others.lookup k).getD (init d.s.limit, Mon.init d.s.limit)
+
+def setOther (d : DSt) (k : Nat) (v : St × Mon) : DSt :=
+  { d with others := (k, v) :: d.others.filter (·.1 ≠ k) }
 
 def dedup : List Nat → List Nat
   | [] => []
@@ -68,14 +75,18 @@ structure ImplOut where
   res     : String
   blocked : List Nat
   cons    : String
+  foreign : List Nat := []
 
 def parseImpl (s : String) : Option ImplOut :=
-  match s.splitOn " " with
-  | [r, b, c] =>
+  let core (r b c : String) (fg : List Nat) : Option ImplOut :=
     if b.startsWith "blocked=" && c.startsWith "cons=" then do
       let bl ← parseIds (b.drop 8).toString
-      pure { res := r, blocked := bl, cons := (c.drop 5).toString }
+      pure { res := r, blocked := bl, cons := (c.drop 5).toString, foreign := fg }
     else none
+  match s.splitOn " " with
+  | [r, b, c] => core r b c []
+  | [r, b, c, f] =>
+    if f.startsWith "foreign=" then (parseIds (f.drop 8).toString) >>= core r b c else none
   | _ => none
 
 def lookupItem (d : DSt) (id : Nat) : Item := (d.items.lookup id).getD ⟨id, false, false⟩
@@ -88,6 +99,8 @@ def parseGot (d : DSt) (s : String) : Option Out :=
   else if s = "doneerr" then some .doneErr
   else if s = "parked" then some .parkedNow
   else none
+
+def foreignV (io : ImplOut) : Verdict := if io.foreign.isEmpty then .ok else .viol 13
 
 def verdictStr : List Verdict → String
   | [] => "ok"
@@ -120,12 +133,12 @@ def step' : Step DSt := fun d fs impl =>
       | none => (m1, Verdict.na)
     let v3 := m2.readers (!io.blocked.isEmpty)
     let v := if impl.startsWith "PANIC" || impl.startsWith "CRASH" then "VIOL " ++ violText 9
-      else if io?.isNone then "VIOL unparsable implementation output" else verdictStr [v1, v2, v3]
+      else if io?.isNone then "VIOL unparsable implementation output" else verdictStr [foreignV io, v1, v2, v3]
     ({ d with s := s3, m := m2, consOut := consOut' }, mo, v)
   match fs with
   | ["limit", n] =>
     match n.toNat? with
-    | some l => ({ s := init l, m := Mon.init l, items := [], consOut := false, started := true }, "- blocked=- cons=-", "-")
+    | some l => ({ s := init l, m := Mon.init l, items := [], consOut := false, started := true, others := [] }, "- blocked=- cons=-", "-")
     | none => (d, "bad-op", "-")
   | ["put", k, n] =>
     match n.toNat? with
@@ -213,8 +226,109 @@ def step' : Step DSt := fun d fs impl =>
       let v4 := m3.readers (!io.blocked.isEmpty)
       let v := if impl.startsWith "PANIC" || impl.startsWith "CRASH" then "VIOL " ++ violText 9
         else if io?.isNone || resI.length ≠ ops.length then "VIOL unparsable implementation output"
-        else verdictStr (vs0 ++ vs1 ++ vs2 ++ [v3, v4])
+        else verdictStr (foreignV io :: vs0 ++ vs1 ++ vs2 ++ [v3, v4])
       ({ d with s := s3, m := m3, consOut := consOut' }, mo, v)
+  | "finishcb" :: its =>
+    /- finish() of the primary buffer while, from inside its onOrphaned callbacks, items are applied to
+       OTHER control buffers of the process. Buffers are independent in the model (each has its own
+       `St`), so: primary `finish`, and every item on its own buffer in order. -/
+    let parseIt (s : String) : Option (Nat × Op × Option Item) :=
+      match s.splitOn ":" with
+      | [b, it] =>
+        match b.toList with
+        | 'b' :: r => do
+          let k ← (String.ofList r).toNat?
+          if it = "g" then pure (k, .get false, none) else
+          match it.toList with
+          | 'p' :: kd :: rr => do
+            let id ← (String.ofList rr).toNat?
+            let item : Item := ⟨id, kd = 't', kd = 'h'⟩
+            pure (k, .put item, some item)
+          | _ => none
+        | _ => none
+      | _ => none
+    match its.mapM parseIt with
+    | none => (d, "bad-op", "-")
+    | some ops =>
+      let d := { d with items := (ops.filterMap fun (p : Nat × Op × Option Item) => p.2.2.map fun (it : Item) => (it.id, it)) ++ d.items }
+      let resOfOut : Out → String := fun o => match o with
+        | .putOk => "ok" | .putErr => "err" | .got it => s!"got_{it.id}" | .getNone => "none" | .getErr => "err"
+        | .busy => "busy" | _ => "?"
+      let (orphI, resI) : Option (List Nat) × List String :=
+        match io.res.splitOn "/" with
+        | [a, b] => (if a.startsWith "orph=" then parseIds (a.drop 5).toString else none, if b = "-" then [] else b.splitOn ",")
+        | _ => (none, [])
+      -- primary
+      let r0 := step d.s .finish
+      let orphM := match r0.2 with | .orphaned ids => showIds ids | _ => "-"
+      let s1 := settleReaders r0.1
+      let (s2, c2) := settleConsumer 8 s1
+      let s3 := settleReaders s2
+      let consOut' := d.consOut && c2.isNone
+      let blockedM := (dedup ((s3.readers.filter fun p => readerBlocked s3 p.1).map (·.1))).foldl (fun acc x => insertNat x acc) []
+      let (m1, v1) := match orphI with
+        | some ids => d.m.step .finish (.orphaned ids)
+        | none => (d.m, Verdict.viol 12)
+      let (m2, v2) := match parseGot d io.cons with
+        | some out => if io.cons = "parked" || io.cons = "-" then (m1, Verdict.na) else m1.step (.get true) out
+        | none => (m1, Verdict.na)
+      let v3 := m2.readers (!io.blocked.isEmpty)
+      let d := { d with s := s3, m := m2, consOut := consOut' }
+      -- the items, each on its own buffer: model and monitor
+      let (d, outsM, vs) := (ops.zip (resI ++ List.replicate ops.length "?")).foldl
+        (fun (acc : DSt × List String × List Verdict) (p : (Nat × Op × Option Item) × String) =>
+          let (k, o, _) := p.1
+          let (sk, mk) := getOther acc.1 k
+          let r := step sk o
+          let implOut : Option Out := match o with
+            | .put _ => if p.2 = "ok" then some Out.putOk else if p.2 = "err" then some Out.putErr else none
+            | _ => parseGot acc.1 p.2
+          let (mk', v) := match implOut with
+            | some out => mk.step o out
+            | none => (mk, Verdict.viol 12)
+          (setOther acc.1 k (r.1, mk'), acc.2.1 ++ [resOfOut r.2], acc.2.2 ++ [v])) (d, [], [])
+      let resM := if outsM.isEmpty then "-" else ",".intercalate outsM
+      let mo := s!"orph={orphM}/{resM} blocked={showIds blockedM} cons={showCons c2 (d.consOut || c2.isSome)}"
+      let v := if impl.startsWith "PANIC" || impl.startsWith "CRASH" then "VIOL " ++ violText 9
+        else if io?.isNone || resI.length ≠ ops.length then "VIOL unparsable implementation output"
+        else verdictStr (foreignV io :: v1 :: vs ++ [v2, v3])
+      (d, mo, v)
+  | b :: rest =>
+    /- `b<k> put|get|finish`: an op on control buffer k ≥ 1 -/
+    match b.toList with
+    | 'b' :: r =>
+      match (String.ofList r).toNat? with
+      | none => (d, "bad-op", "-")
+      | some k =>
+        let (sk, mk) := getOther d k
+        let go (d : DSt) (o : Op) (resOf : Out → String) (implOut : Option Out) : DSt × String × String :=
+          let r := step sk o
+          let blockedM := (dedup ((d.s.readers.filter fun p => readerBlocked d.s p.1).map (·.1))).foldl (fun acc x => insertNat x acc) []
+          let mo := s!"{resOf r.2} blocked={showIds blockedM} cons={showCons none d.consOut}"
+          let (mk', v1) := match implOut with
+            | some out => mk.step o out
+            | none => (mk, Verdict.viol 12)
+          let v := if impl.startsWith "PANIC" || impl.startsWith "CRASH" then "VIOL " ++ violText 9
+            else if io?.isNone then "VIOL unparsable implementation output" else verdictStr [foreignV io, v1]
+          (setOther d k (r.1, mk'), mo, v)
+        match rest with
+        | ["put", kd, n] =>
+          match n.toNat? with
+          | none => (d, "bad-op", "-")
+          | some id =>
+            let it : Item := ⟨id, kd = "t", kd = "h"⟩
+            let d := { d with items := (id, it) :: d.items }
+            go d (.put it) (fun o => match o with | .putOk => "ok" | .putErr => "err" | _ => "?")
+              (if io.res = "ok" then some .putOk else if io.res = "err" then some .putErr else none)
+        | ["get"] =>
+          go d (.get false)
+            (fun o => match o with | .got it => s!"got_{it.id}" | .getNone => "none" | .getErr => "err" | _ => "?")
+            (parseGot d io.res)
+        | ["finish"] =>
+          go d .finish (fun o => match o with | .orphaned ids => "orph=" ++ showIds ids | .none => "orph=-" | _ => "?")
+            (if io.res.startsWith "orph=" then (parseIds (io.res.drop 5).toString).map .orphaned else none)
+        | _ => (d, "bad-op", "-")
+    | _ => (d, "bad-op", "-")
   | _ => (d, "bad-op", "-")
 
 def run : IO Unit := Driver.run dinit step'
